@@ -328,3 +328,9 @@ impl VerifNotification {
     }
 }
 
+
+// Second group of hooks (user-facing ends and the per-stream `Connection` task without a
+// `NotificationProtocol`), kept in its own file.
+#[path = "verif_pipe.rs"]
+mod pipe;
+pub use pipe::*;
